@@ -14,8 +14,11 @@
 //    is executed again in a forked child that is killed with _exit at that
 //    event; the parent then inspects the directory: with B >= 1 a complete
 //    dump of the previous state must still be on disk and readable through
-//    the real RestartReader; a fresh manager must then be able to take a dump
-//    in the directory the crash left behind.
+//    the real RestartReader; a fresh manager (new process) must then be able
+//    to take several further dumps in the directory the crash left behind,
+//    and the rotation must hold again (reference model restarted from the
+//    files on disk: restart.dump, then the existing backups newest first with
+//    gaps closed; an incomplete restart.dump is an entry like any other).
 // One worker process per B (own directory), results merged by the parent.
 #include "RestartManager.hpp"
 #include "RestartReader.hpp"
